@@ -412,6 +412,14 @@ class Fn(object):
     def dominates(self, a_bid, b_bid):
         return a_bid == b_bid or b_bid not in self.reach([self.entry], cut_blocks=[a_bid])
 
+    def case_body(self, bid):
+        """First block with events reached from bid through empty fall-through blocks (stacked case labels)."""
+        seen = set()
+        while bid not in seen and not self.block_sites(bid) and len(self.out[bid]) == 1 and self.out[bid][0].label == 'fall':
+            seen.add(bid)
+            bid = self.out[bid][0].dst
+        return bid
+
     def path_from_block(self, bid, is_b, target=None):
         """Like path_avoiding, starting at the first event of block bid."""
         target = self.exit if target is None else target
